@@ -379,11 +379,15 @@ fn build_case(raw: &RawCase, cfg: &GenCfg) -> Case {
     if kind.is_array() {
         len = nearest_arr_len(len);
     }
-    let layout = if kind.consuming() {
+    let mut layout = if kind.consuming() {
         cfg.layouts[raw.layout]
     } else {
         Layout::Tracked
     };
+    if kind == Kind::IterOwn && layout == Layout::Zst {
+        // the probe hands out identified elements only
+        layout = Layout::Tracked;
+    }
     let mut threads: Vec<Vec<Op>> = raw
         .threads
         .iter()
